@@ -3,10 +3,16 @@
 //! same requests from the model; `check` diffs the two.
 use std::io::{BufRead, Write};
 
+mod misc;
 mod session;
 mod util;
 
 fn main() {
+    let args: Vec<String> = std::env::args().collect();
+    if args.len() >= 2 && args[1] == "--construct" {
+        misc::construct_only(&args[2..]);
+        return;
+    }
     // panics are outcomes (`P`), not noise
     std::panic::set_hook(Box::new(|_| {}));
     let stdin = std::io::stdin();
@@ -40,8 +46,19 @@ fn handle(line: &str) -> String {
     if toks.is_empty() {
         return "bad-request".into();
     }
+    let guarded = |f: &dyn Fn() -> String| -> String {
+        match std::panic::catch_unwind(std::panic::AssertUnwindSafe(f)) {
+            Ok(s) => s,
+            Err(_) => "P".into(),
+        }
+    };
     match toks[0] {
         "S" => session::run(&toks[1..], body),
+        "MW" => guarded(&|| misc::run_mw(&toks[1..], body)),
+        "AD" => guarded(&|| misc::run_ad(&toks[1..], body)),
+        "Z" => guarded(&|| misc::run_z(&toks[1..])),
+        "VB" => guarded(&|| misc::run_vb(&toks[1..])),
+        "TB" => guarded(&|| misc::run_tb(&toks[1..])),
         _ => "bad-request".into(),
     }
 }
